@@ -759,14 +759,33 @@ def has_side_effect(node: ast.AST, safe_callable_whitelist: Collection[str] = fr
     return True
 
 
+def splitlines(source: str) -> Sequence[str]:
+    """Split source into lines (line ends kept) the way Python numbers them.
+
+    Unlike str.splitlines(), only \\n, \\r\\n and \\r end a line: form feeds and unicode line
+    separators may occur inside a line (in a string or comment) without ending it.
+    """
+    return re.findall(r"[^\r\n]*(?:\r\n|\r|\n)|[^\r\n]+", source)
+
+
 @functools.lru_cache(maxsize=100)
 def _get_line_start_charnos(source: str) -> Sequence[int]:
     start = 0
     charnos = []
-    for line in source.splitlines(keepends=True):
+    for line in splitlines(source):
         charnos.append(start)
         start += len(line)
     return tuple(charnos)
+
+
+def _get_charno(source: str, line_start_charnos: Sequence[int], lineno: int, col_offset: int) -> int:
+    """Character number of a (lineno, col_offset) position; ast column offsets count UTF-8 bytes."""
+    line_start = line_start_charnos[lineno - 1]
+    if col_offset > 0 and not source.isascii():
+        line_prefix = source[line_start : line_start + col_offset].encode("utf-8")[:col_offset]
+        col_offset = len(line_prefix.decode("utf-8", errors="ignore"))
+
+    return line_start + col_offset
 
 
 class Range(NamedTuple):
@@ -860,12 +879,16 @@ def get_charnos(node: ast.AST, source: str, keep_first_indent: bool = False) -> 
     start_position = _get_position(start)
     node_position = _get_position(node)
 
-    start_charno = line_start_charnos[start_position.lineno - 1] + start_position.col_offset
+    start_charno = _get_charno(
+        source, line_start_charnos, start_position.lineno, start_position.col_offset
+    )
     start_charno = min(start_charno, len(source))
     if getattr(node, "end_lineno", None) is None:
         return Range(start_charno, start_charno)
 
-    end_charno = line_start_charnos[node_position.end_lineno - 1] + node_position.end_col_offset
+    end_charno = _get_charno(
+        source, line_start_charnos, node_position.end_lineno, node_position.end_col_offset
+    )
 
     code = source[start_charno:end_charno]
     if code and code[0] == " ":
